@@ -13,6 +13,8 @@
  *                             (annexb | len1 | len2 | len4 | nalu)
  *   defer <n>                 (before new) the sink answers the flow format request later: once n more
  *                             inputs have returned after the one during which it was asked (-1: at once)
+ *   complete                  (before new) the input flow definition is flagged flow.complete: every buffer
+ *                             holds whole access units (or parameter sets travelling alone)
  *   feed <hex> <seg>          upipe_input of a block uref holding the octets,
  *                             cut into segments seg = a+b+c ("-": one)
  *   release                   upipe_release of the framer (flushes the last
@@ -178,6 +180,7 @@ static void sink_input(struct upipe *upipe, struct uref *uref, struct upump **up
 
 /* deferred flow format answers ("new <enc> defer=<n>") */
 static int defer_answer = -1, pending_left;
+static bool flow_complete;      /* command complete: the input flow is flagged flow.complete (whole access units per buffer) */
 static struct urequest *pending_ff;
 static uint8_t out_enc_fwd(void);
 static int answer_ff(struct urequest *urequest)
@@ -268,6 +271,8 @@ static void cmd_new(const char *enc)
     struct uref *flow_def = uref_block_flow_alloc_def(uref_mgr, "h264.");
     assert(flow_def != NULL);
     ubase_assert(uref_h26x_flow_set_encaps(flow_def, UREF_H26X_ENCAPS_ANNEXB));
+    if (flow_complete)
+        ubase_assert(uref_flow_set_complete(flow_def));
     int r1 = upipe_set_output(framer, sink);
     int r2 = upipe_set_flow_def(framer, flow_def);
     uref_free(flow_def);
@@ -385,6 +390,7 @@ static void do_line(char *line)
         if (framer != NULL)
             cmd_release();
         defer_answer = -1;
+        flow_complete = false;
         /* a loop that does not end in the code under test ends the execution
          * (SIGALRM: reported as a "san" event of kind signal) */
         alarm(25);
@@ -397,6 +403,8 @@ static void do_line(char *line)
         cmd_new(tok[1]);
     else if (!strcmp(tok[0], "defer") && ntok == 2)
         defer_answer = atoi(tok[1]);     /* -1: the sink answers from inside register_request */
+    else if (!strcmp(tok[0], "complete"))
+        flow_complete = true;            /* (before new) */
     else if (!strcmp(tok[0], "feed") && ntok == 3)
         cmd_feed(tok[1], tok[2]);
     else if (!strcmp(tok[0], "release"))
